@@ -246,6 +246,16 @@ def uiCommands : List String := ["msg", "request-secret", "request-public", "con
 def recipientCommands : List String := ["recipient-stanza", "labels", "error", "done"] ++ uiCommands
 def identityCommands : List String := ["file-key", "error", "done"] ++ uiCommands
 
+/-- the result is an error that does not come from a clean `done`: the plugin's
+    own error text, a protocol violation, or the stream ending / being malformed —
+    never a success, never "incorrect identity", never "no stanzas" -/
+def Hard {α : Type} (res : Except ClientErr α) : Prop := ∃ err, res = .error err ∧ err.hard
+
+/-- types that neither machine treats specially and that `ClientUI.handle`
+    cannot reject: prompts for a message or a value, and commands unknown to both -/
+def harmless (t : String) : Prop :=
+  t ∉ ["recipient-stanza", "labels", "file-key", "error", "done", "confirm"]
+
 /-- the messages the client reads before the first `done` -/
 def beforeDone (msgs : List Stanza) : List Stanza := msgs.takeWhile (fun m => m.type != "done")
 
